@@ -17,7 +17,7 @@ separately for values inside and outside the fixnum range."""
 import re
 
 from .. import smt
-from ..common import EXIT_INCONCLUSIVE, EXIT_OK, EXIT_VIOLATION, known_for, log
+from ..common import EXIT_INCONCLUSIVE, EXIT_OK, EXIT_VIOLATION, REPO, known_for, log
 from . import core, util
 
 
@@ -177,16 +177,41 @@ def clause_side(mir):
     return {"primary": primary, "alt": alt and alt_from_cka}
 
 
+def literal_variant(name):
+    import os
+    with open(os.path.join(REPO, "src/parser/ast.rs")) as f:
+        txt = f.read()
+    m = re.search(r"pub enum Literal \{(.*?)\n\}", txt, re.S)
+    if not m:
+        raise core.Unsupported("enum Literal not found")
+    names = re.findall(r"^\s*(\w+)\s*(?:\(|,)", m.group(1), re.M)
+    if name not in names:
+        raise core.Unsupported("Literal::%s not found (%s)" % (name, names))
+    return names.index(name)
+
+
 def alternatives_fn(mir):
     name = mir.find(r"(^|::)constant_key_alternatives$")
     body = mir.body(name[0])
     paths = core.Executor(body, max_depth=200).run("bb0")
-    out = {"Integer": False, "Rational": False, "rational_guard": False, "other_none": True}
+    out = {"Integer": False, "Rational": False, "rational_guard": False, "other_none": True,
+           "integers_always_converted": True}
     for p in paths:
         if p.end != "return":
             continue
         r = p.env.get("_0")
         bwc = core.calls(p, r"Fixnum::build_with_checked")
+        # once the constant is known to be an integer (a reference to its digits was taken: the local
+        # `n`), every path must go through Fixnum::build_with_checked - an extra early return
+        # would leave a fitting value without its fixnum key
+        took_int = any(c[0][0] == "app" and c[0][1].endswith("is_one") and
+                       ((c[1] == "not_in" and 0 in c[2]) or (c[1] == "==" and c[2] == 1)) for c in p.conds)
+        if not took_int:
+            for tm, op, v in p.conds:
+                if tm[0] == "disc" and tm[1] == ("s", "_1") and op == "==" and v == literal_variant("Integer"):
+                    took_int = True
+        if took_int and not bwc:
+            out["integers_always_converted"] = False
         variant = None
         for tm, op, v in p.conds:
             if tm[0] == "disc" and tm[1] == ("s", "_1") and op == "==":
@@ -355,7 +380,7 @@ def run(thorough=False):
     norm_all = all(site_norm.values())
     norm_when_cons = norm_all
     norm_always = False
-    alt_ok = af["Integer"] and af["Rational"] and af["rational_guard"]
+    alt_ok = af["Integer"] and af["Rational"] and af["rational_guard"] and af["integers_always_converted"]
     prelude = """
 (declare-datatypes ((Kind 0)) (((Fix) (Big) (Rat))))
 (declare-datatypes ((Cell 0)) (((mk (kind Kind) (val Int) (ptr Int)))))
